@@ -1,5 +1,7 @@
 """C11 — the parser is total: every input yields a schema or a renderable error."""
 import json
+import os
+import time
 import re
 import string
 
@@ -65,7 +67,7 @@ def run(chk):
         "(a) token-level mutations (delete / duplicate / swap / replace one token) of valid front-profile token lists and the out-of-domain literals "
         "the property lists: outcome (schema / error) compared in Coq with the model, no exception may escape, Logger.error must render and every "
         "cited line must exist; (b) random printable text and prefixes of valid texts at every cut point sampled: (also with comments holding \\r, \\f, U+2028 and the other characters str.splitlines() "
-        "takes for line ends), erroneous texts laid out on one line, with tab indentation and with words of 100..5000 characters: only the implementation-side totality predicate; non-trivial = input is not a valid schema; distinct = input text")
+        "takes for line ends), erroneous texts laid out on one line, with tab indentation and with words of 100..5000 characters: only the implementation-side totality predicate; (c) texts that end inside a long block comment / string / run of one character, parsed in a child process under a 20 s limit (termination); non-trivial = input is not a valid schema; distinct = input text")
     oracle = printer.float_oracle(None)
     cases, meta, fails = [], [], []
 
@@ -153,6 +155,36 @@ def run(chk):
         rnd = "".join(chk.rng.choice(string.printable[:95] + "\n\t") for _ in range(chk.rng.randint(0, 60)))
         one(rnd, "random", False)
         one('version: "3"\n' + rnd, "random-after-preamble", False)
+    # "parsing terminates": inputs on which a regular-expression or Earley engine could take exponential time are parsed in a child
+    # process with a time limit (a stuck `re` call cannot be interrupted from inside the interpreter): a text that ends inside a long
+    # block comment / string / run of one character, after a valid beginning
+    import subprocess, sys
+    probe = ("import sys, json; sys.path.insert(0, %r); import front_run; "
+             "o = front_run.run_front({'main.fcp': sys.stdin.read()}); print(json.dumps([o[0], str(o[1])[:300]]))" % os.path.dirname(os.path.dirname(os.path.abspath(__file__))))
+    limit = 20
+    tails = []
+    for q in range(6 if quick else 30):
+        body = "".join(chk.rng.choice("abcdefghij klmnop,.;:-_/()[]{}@|\"'0123456789\n") for _ in range(chk.rng.choice([30, 45, 60, 200])))
+        tails += ["/* " + body.replace("*", ""), "/* " + body.replace("*", "").replace("/", "") + " * / ", "// " + body.replace("\n", " "),
+                  '"' + body.replace('"', "").replace("\n", " "), "/" * len(body), "[" * len(body), "a" * len(body) + " @", "-" * len(body)]
+    heads = ['version: "3"\n', 'version: "3"\nstruct S { a @0: u8, }\n', 'version: "3"\nstruct S {\n    a @0: u8 | unit("V") ']
+    slowest = 0.0
+    for tl in tails:
+        text = chk.rng.choice(heads) + tl
+        t0 = time.time()
+        try:
+            r = subprocess.run([sys.executable, "-c", probe], input=text, capture_output=True, text=True, timeout=limit, env=common.child_env())
+            out = json.loads(r.stdout.strip().split("\n")[-1]) if r.returncode == 0 and r.stdout.strip() else ["raise", (r.stderr or "no output")[-300:]]
+        except subprocess.TimeoutExpired:
+            out = ["timeout", f"no answer within {limit} s"]
+        slowest = max(slowest, time.time() - t0)
+        chk.count(text, nontrivial=True, sample={"input": text[:200], "kind": "unterminated-tail", "outcome": out[0]})
+        chk.hist("kind", "unterminated-tail"); chk.hist("outcome:unterminated-tail", out[0])
+        if out[0] == "timeout":
+            fails.append({"kind": "parser-did-not-terminate", "source": text, "input_kind": "unterminated-tail", "seconds": limit})
+        elif out[0] == "raise":
+            fails.append({"kind": "exception-escaped", "source": text, "input_kind": "unterminated-tail", "exception": out[1]})
+    chk.coverage["slowest_unterminated_tail_s"] = round(slowest, 2)
     chk.log(f"{chk.coverage['evaluations']} inputs ({len(cases)} compared with the model); implementation-side failures: {len(fails)}")
     chk.coverage["traces_validated_against_impl"] = len(cases)
     mism, dom = [], []
